@@ -6,12 +6,16 @@ SPEC = {
         {"name": "mkvs-root", "cmd": "mkvs",
          "args": {"quick": ["-mode", "c02", "-cases", "300"], "thorough": ["-mode", "c02", "-cases", "3000"]},
          "search_args": ["-mode", "c02", "-cases", "3000"]},
+        {"name": "mkvs-keys", "cmd": "mkvs",
+         "args": {"quick": ["-mode", "keys", "-klen", "11,10,13,12,7,10"],
+                  "thorough": ["-mode", "keys", "-klen", "15,13,16,15,8,12"]}},
     ],
     "trusted_base": [
         "Coq 8.16.1 kernel (coqc; coqchk in the thorough tier); no native_compute",
         "harness/cmd/mkvs + verif-tagged go/storage/mkvs/export_verif.go (VerifDump: read-only walk of the real tree through the node cache / node database)",
         "crypto/sha512 Sum512_256 as called by the harness to tabulate (pre-image, digest) pairs; the Coq model evaluates ITS OWN hash formula with that table as the hash function (a missing pre-image is a mismatch), and the result is compared with the root returned by the real Tree.Commit",
         "vm_compute evaluation of Verif.Mkvs.Trie / Verif.Mkvs.Corr on the recorded histories (no extraction)",
+        "stream mkvs-keys: the real node.Key functions (Split, Merge, AppendBit, GetBit, BitLength, CommonPrefixLen) are swept exhaustively over all packed bit strings up to the given lengths and folded into a polynomial checksum modulo 2^61 that the Coq port Verif.Mkvs.Key recomputes (a checksum, not a per-call comparison: a difference is detected unless the checksums collide)",
         "modelled, not verified: SHA-512/256 itself (abstract H in the theorems); node cache LRU, node databases and serialization are dimensions of the correspondence runs only",
     ],
     "assumptions": [
